@@ -9,12 +9,15 @@ from ..pathcond import implied
 MANIFEST = {
     'technique': 'quantity-kind (T/P) typing of every value stored into the thermal condition, plus a must-store rule for the specified quantities on every normal path '
             '(interprocedural through the single-component helpers); exhaustiveness of the VLE.__call__ dispatch; taint + must-pass rule for flow-derived per-call '
-            'state in VLE._setup',
+            'state in VLE._setup; symbolic shape check of the equilibrium-ratio update, the Rachford-Rice composition update and the fugacity functions '
+            '(iso-fugacity)',
     'text': 'Decides for every input the specification-plumbing clause only: on every normal return of each set_XY/_set_XY_chemical the specified T (resp. P) is '
             'what the thermal condition holds, every value stored into T is temperature-kinded and into P pressure-kinded, VLE.__call__ passes each specification '
             'to the parameter of the same kind and its dispatch over specification pairs is exhaustive; every field that VLE._setup computes from the amounts of '
             'this call (totals and compositions the V/H/S residuals divide by) is stored on every normal path, never only when the set of non-zero chemicals '
-            'changed. Residuals of V/H/S specifications, iso-fugacity, Rachford-Rice agreement and scaling are numerical and not decided.',
+            'changed. The iso-fugacity clause is decided in shape: both fixed-point kernels update K <- pcf*Psat/P*gamma(x)/phi(y) with x, y = xy(x, K) and x <- '
+            'z/(1+V(K-1)); the Gibbs-minimisation path uses f_L = x*gamma(x)*pcf*Psat and f_V = y*P*phi(y). Residuals of V/H/S specifications, iso-fugacity, '
+            'Rachford-Rice agreement and scaling are numerical and not decided.',
 }
 
 VLEF = 'thermosteam/equilibrium/vle.py'
@@ -62,6 +65,8 @@ def form_kind(f):
 def run(ctx):
     prog = ctx.prog
     ctx.decided = ['D2 every equilibrium component object built by the solver receives the solver\'s own property package (never the global default)',
+                   'D4 iso-fugacity shape: both fixed-point kernels update K <- pcf*Psat/P * gamma(x)/phi(y) (gamma at the liquid, phi at the vapour composition) '
+                   'and x <- z/(1+V(K-1)); xy gives y ~ x*K; the Gibbs-minimisation path uses f_L = x*gamma(x)*pcf*Psat and f_V = y*P*phi(y)',
                    'D1 specification plumbing: specified T/P reach the thermal condition on every normal path, stored values have the sink\'s kind, '
                    'VLE.__call__ dispatch passes like to like and is exhaustive']
     ctx.not_decided = ['residuals of V/H/S specifications', 'iso-fugacity and phase-boundary clauses', 'agreement with Rachford-Rice', 'flow scaling']
@@ -173,6 +178,8 @@ def run(ctx):
     thermo_propagation(ctx, d3, vle)
     d4 = ctx.rule('D3', 'per-call state derived from the flows is refreshed on every call', floor=8)
     per_call_state(ctx, d4, vle)
+    d5 = ctx.rule('D4', 'equilibrium ratios and fugacities have the iso-fugacity shape', floor=9)
+    isofugacity_shape(ctx, d5, vle)
 
 
 SUPPORT_ONLY = {'nonzero_keys', 'any', 'nonzero', 'keys', 'nonzero_index', 'has_data'}
@@ -346,3 +353,171 @@ def thermo_propagation(ctx, d3, vle):
                 d3.ok(cons, '%s(...) receives the solver\'s own property package' % n.func.id, f, n)
             else:
                 d3.fail(cons, 'foreign-thermo-%s' % n.func.id, '%s(...) receives %s, which is not the solver\'s property package' % (n.func.id, a), f, n)
+
+
+def isofugacity_shape(ctx, rule, vle):
+    """y_i phi_i P = x_i gamma_i pcf_i Psat_i  =>  K_i = y_i/x_i = pcf_i Psat_i gamma_i(x) / (P phi_i(y)).  Decides that the code
+    evaluates exactly this product (nothing dropped or inverted, gamma at the liquid and phi at the vapour composition) in the
+    fixed-point kernels, in their caller and in the fugacity functions of the Gibbs-minimisation path."""
+    prog = ctx.prog
+    m = prog.module(VLEF)
+    noconv = lambda t, st: False if 'conversion' in src(t) else None
+    # the kernels: module functions handed to the fixed-point accelerator by _solve_v_fixed_point
+    sv = vle.methods.get('_solve_v_fixed_point')
+    if sv is None:
+        raise AnalysisError('VLE._solve_v_fixed_point not found')
+    kernels = sorted({n.value.id for n in walk_no_nested(sv.node) if isinstance(n, ast.Assign) and isinstance(n.value, ast.Name) and n.value.id in m.functions})
+    if len(kernels) < 2:
+        raise AnalysisError('fixed-point kernels not found: %s' % kernels)
+    xyf = m.functions.get('xy')
+    for kn in kernels:
+        f = m.functions[kn]
+        ratio_param = f.params[1]
+        ps, _ = run_paths(f.node, decide=noconv)
+        ps = [p for p in ps if not p.raised]
+        seenK = seenX = False
+        for p in ps:
+            stores = [e for e in p.events if e.kind == 'store']
+            kst = [e for e in stores if isinstance(e.value, Form) and len(e.value.t) == 1 and dict(list(e.value.t)[0]).get(ratio_param)]
+            for e in kst[:1]:
+                k = dict(list(e.value.t)[0])
+                calls = {a: x for a, x in k.items() if '(' in a and a != ratio_param}
+                up = [a for a, x in calls.items() if x == 1]
+                dn = [a for a, x in calls.items() if x == -1]
+                okk = k.get(ratio_param) == 1 and len(up) == 1 and len(dn) == 1 and len(k) == 3 and list(e.value.t.values())[0] == 1
+                like = okk and up[0].startswith(f.params[_pindex(f, 'gamma')] + '(') and dn[0].startswith(f.params[_pindex(f, 'phi')] + '(') \
+                    and _first_arg_component(up[0]) == 0 and _first_arg_component(dn[0]) == 1
+                if like:
+                    if not seenK:
+                        rule.ok(kn, 'K <- %s * gamma(x, T)/phi(y, T, P): activity at the liquid, fugacity coefficient at the vapour composition of xy(x, K)' % ratio_param, f, e.stmt)
+                    seenK = True
+                else:
+                    rule.fail(kn, 'K-shape', 'the equilibrium ratio is updated with %s; iso-fugacity needs %s*gamma(x)/phi(y) with x, y = xy(x, K)' % (e.value.pretty()[:300], ratio_param), f, e.stmt)
+                    seenK = True
+            # Rachford-Rice update of the liquid composition
+            karr = kst[0].target[:-4] if kst and kst[0].target.endswith('[::]') else None
+            for i, e in enumerate(stores):
+                if karr and isinstance(e.value, Form) and len(e.value.t) == 1 and i > 0 and isinstance(stores[i - 1].value, Form):
+                    k = dict(list(e.value.t)[0])
+                    inv = [a for a, x in k.items() if x == -1 and karr in a]
+                    if len(inv) == 1 and len(k) == 2:
+                        V = stores[i - 1].value
+                        z = [a for a, x in k.items() if x == 1]
+                        den = Form.const(1) + V * (Form.atom(karr) - Form.const(1))
+                        want = Form.atom(z[0]) * Form({((('(%s)' % den.pretty()), -1),): 1})
+                        if e.value == want:
+                            if not seenX:
+                                rule.ok(kn, 'x <- z / (1 + V (K - 1)) with the V just solved', f, e.stmt)
+                            seenX = True
+                        else:
+                            rule.fail(kn, 'rachford-rice-x', 'liquid composition update is %s, expected z/(1+V(K-1))' % e.value.pretty()[:300], f, e.stmt)
+                            seenX = True
+        if not seenK:
+            rule.fail(kn, 'K-shape', 'no update of the equilibrium ratios from %s found' % ratio_param, f, f.node)
+        if not seenX:
+            rule.fail(kn, 'rachford-rice-x', 'no update x <- z/(1+V(K-1)) found', f, f.node)
+    # xy
+    if xyf is not None:
+        ps, _ = run_paths(xyf.node)
+        p = [q for q in ps if not q.raised][0]
+        a, b = xyf.params[0], xyf.params[1]
+        xn = Form.atom(a) * Form.atom('%s.sum()' % a).inv()
+        ynum = Form.atom(b) * xn
+        ok1 = isinstance(p.ret, list) or p.ret is not None
+        rt = p.tup.get('@ret') if hasattr(p, 'tup') else None
+        vals = [e.value for e in p.events if e.kind == 'assign' and isinstance(e.value, Form)]
+        rt = p.tup.get('<ret>')
+        order = isinstance(rt, (list, tuple)) and len(rt) == 2 and isinstance(rt[0], Form) and rt[0] == xn \
+            and isinstance(rt[1], Form) and len(rt[1].t) == 1 and dict(list(rt[1].t)[0]).get(b) == 1
+        if any(v == ynum for v in vals) and order:
+            rule.ok('xy', 'returns (x normalised, y ~ K * x normalised) in that order', xyf)
+        else:
+            rule.fail('xy', 'y-from-x', 'xy does not form y as K*x of the normalised x', xyf, xyf.node)
+    # caller: what is handed over as the ratio parameter
+    so = vle.methods.get('_solve_v')
+    ps, _ = run_paths(so.node, decide=noconv)
+    done = False
+    for p in ps:
+        for e in p.events:
+            if e.kind == 'call' and e.target == 'self._solve_v_fixed_point' and e.value and isinstance(e.value[0], Form) and not done:
+                done = True
+                fm = e.value[0]
+                cls_ = _classify(fm)
+                if cls_ == {'pcf': 1, 'Psat': 1, 'P': -1}:
+                    rule.ok('VLE._solve_v', 'the kernels receive pcf(T,P,Psat)*Psat/P', so, e.stmt)
+                else:
+                    rule.fail('VLE._solve_v', 'ratio-argument', 'the kernels receive %s, expected pcf*Psat/P' % fm.pretty()[:200], so, e.stmt)
+            if e.kind == 'call' and e.target == 'solve_vle_vapor_mol_shgo' and e.value and len(e.value) > 5 and isinstance(e.value[5], Form):
+                cls_ = _classify(e.value[5])
+                if cls_ == {'pcf': 1, 'Psat': 1}:
+                    rule.ok('VLE._solve_v', 'the Gibbs-minimisation path receives pcf(T,P,Psat)*Psat', so, e.stmt)
+                else:
+                    rule.fail('VLE._solve_v', 'shgo-argument', 'the Gibbs-minimisation path receives %s, expected pcf*Psat' % e.value[5].pretty()[:200], so, e.stmt)
+    if not done:
+        rule.fail('VLE._solve_v', 'ratio-argument', 'call of _solve_v_fixed_point not found', so, so.node)
+    # fugacity functions
+    for fname, extra in (('liquid_fugacity', None), ('vapor_fugacity', 'P')):
+        f = m.functions.get(fname)
+        if f is None:
+            raise AnalysisError('%s not found' % fname)
+        ps, _ = run_paths(f.node)
+        good = False
+        mol = f.params[0]
+        frac = Form.atom(mol) * Form.atom('%s.sum()' % mol).inv()
+        for p in ps:
+            if p.raised or p.ret is None or not isinstance(p.ret, Form) or len(p.ret.t) != 1:
+                continue
+            k = dict(list(p.ret.t)[0])
+            calls = [a for a, x in k.items() if '(' in a and not a.endswith('.sum()') and x == 1]
+            if len(calls) != 1 or not calls[0].split('(', 1)[1].startswith(frac.pretty()):
+                continue
+            rest = Form({tuple(sorted((a, x) for a, x in k.items() if a != calls[0])): 1})
+            scal = [prm for prm in f.params[1:] if Form.atom(prm) * frac == rest or (extra is None and Form.atom(prm) * frac == rest)]
+            if fname == 'liquid_fugacity':
+                good = any(Form.atom(prm) * frac == rest for prm in f.params[1:])
+            else:
+                good = (Form.atom(f.params[2]) * frac == rest)
+        if good:
+            rule.ok(fname, 'f = (mol/sum) * %s * coefficient(mol/sum, ...)' % ('pcf*Psat' if extra is None else 'P'), f)
+        else:
+            rule.fail(fname, 'fugacity-shape', '%s is not mole fraction x %s x coefficient evaluated at that mole fraction' % (fname, 'pcf*Psat' if extra is None else 'P'), f, f.node)
+
+
+def _pindex(f, word):
+    for i, prm in enumerate(f.params):
+        if prm.startswith('f_') and word in prm:
+            return i
+    raise AnalysisError('%s: parameter for %s not found' % (f.qualname, word))
+
+
+def _first_arg_component(atom):
+    """index k when the first argument of the call atom is (...)[k], else None"""
+    inner = atom.split('(', 1)[1]
+    depth = 0
+    for i, ch in enumerate(inner):
+        if ch in '([':
+            depth += 1
+        elif ch in ')]':
+            depth -= 1
+        elif ch == ',' and depth == 0:
+            inner = inner[:i]
+            break
+    mm = re.search(r'\)\[(\d+)\]$', inner.strip())
+    return int(mm.group(1)) if mm else None
+
+
+def _classify(fm):
+    if len(fm.t) != 1 or list(fm.t.values())[0] != 1:
+        return None
+    out = {}
+    for a, e in list(fm.t)[0]:
+        if a == 'P':
+            key = 'P'
+        elif a.startswith('self._pcf(') or a.startswith('self.pcf('):
+            key = 'pcf'
+        elif 'Psats' in a and not a.startswith('self.'):
+            key = 'Psat'
+        else:
+            key = a
+        out[key] = out.get(key, 0) + e
+    return out
